@@ -161,11 +161,13 @@ def judge(ctx, cases, masks="one"):
         ctx.cov["deviations_beyond_cap"] = ctx.cov.get("deviations_beyond_cap", 0) + res["nbad"] - len(res["bad"])
     # validity of every distinct JSON text the encoders produced: JsonText must accept it
     if os.path.getsize(valid) > 0:
-        if ctx.quick:
-            # quick tier: every other distinct output text (sorted order, fixed stride); the thorough tier validates all
-            vl = open(valid, "rb").readlines()
-            if len(vl) > 2000:
-                open(valid, "wb").write(b"".join(vl[::2]))
+        vl = open(valid, "rb").readlines()
+        if ctx.quick and len(vl) > 2000:
+            # quick tier: every other distinct output text (sorted order, fixed stride)
+            open(valid, "wb").write(b"".join(vl[::2]))
+        elif len(vl) > 150000:
+            # thorough tier: all texts up to 150 000, beyond that a fixed stride that keeps about 150 000 of them
+            open(valid, "wb").write(b"".join(vl[::(len(vl) + 149999) // 150000]))
         vres = ctx.validate("TraceJson", valid, cfg=VALID_CFG, chunk=4000 if ctx.quick else 30000)
         ctx.cov["distinct_outputs_validated"] = ctx.cov.get("distinct_outputs_validated", 0) + vres["n"]
         vlines = None
